@@ -1,4 +1,4 @@
-import RtenVerif.Lemmas.Normalizer
+import RtenVerif.Lemmas.NormalizerBytes
 
 /-!
 # C30 — Text normalizers keep an exact offset map
@@ -222,6 +222,87 @@ theorem c30_all_boundaries_charwise (u : Uni) (n : Norm) (text normalized : List
   simp only [allBoundaries, List.all_eq_true]
   exact run_allB u n text _ hc h
 
+/-! ### `Sequence`: the offset map of a chain is the composition of the stages' maps -/
+
+theorem runSeq_append (u : Uni) (len : Nat) : ∀ (ns ms : List Norm) (st : List Char × List Nat),
+    runSeq u (ns ++ ms) len st = (runSeq u ns len st).bind (runSeq u ms len)
+  | [], ms, st => by simp [runSeq]
+  | n :: ns, ms, st => by
+    simp only [List.cons_append, runSeq]
+    split
+    · simp
+    · exact runSeq_append u len ns ms _
+
+/-- **C30 (composition law).**  For every list of normalizers `ns` and every further normalizer
+`n`: `Sequence [ns…, n]` normalizes with `Sequence ns`, feeds the result to `n`, and reports
+`n`'s map composed with the accumulated map (`offsets[o]`, the end-of-input position mapping to
+`text.len()`). -/
+theorem c30_sequence_snoc (u : Uni) (ns : List Norm) (n : Norm) (text : List Char) :
+    run u (.seq (ns ++ [n])) text =
+      (run u (.seq ns) text).bind fun st =>
+        (run u n st.1).map fun r => (r.1, composeMap (blen text) st.2 r.2) := by
+  simp only [run, runSeq_append]
+  cases h : runSeq u ns (blen text) (text, List.range' 0 (blen text)) with
+  | none => rfl
+  | some st =>
+    simp only [Option.bind_some, runSeq]
+    cases run u n st.1 <;> rfl
+
+/-- **C30 for `Sequence` of an arbitrary list of (arbitrarily nested) normalizers**: the
+composed map has one entry per normalized byte, is non-decreasing, stays within
+`0..=text.len()` and sends char boundaries to char boundaries. -/
+theorem c30_sequence (u : Uni) (ns : List Norm) (text normalized : List Char) (offsets : List Nat)
+    (h : run u (.seq ns) text = some (normalized, offsets)) :
+    offsets.length = blen normalized ∧ nonDecreasing offsets = true ∧
+    (∀ o ∈ offsets, o ≤ blen text) ∧ boundaryOK text normalized offsets = true :=
+  c30_offsets_partial u (.seq ns) text normalized offsets h
+
+/-! ### `Replace`: every well-formed match list, every replacement string -/
+
+/-- **C30 for `Replace`.**  For ANY list of matches that are in order, non-overlapping, have
+`start ≤ end` and lie on char boundaries of the text (`matchesOk`; empty matches, adjacent
+matches, matches at the very start or end, no match at all) and ANY replacement string (also
+empty): `Replace::normalize` does not panic and its offset map satisfies T1–T3.  The hypothesis
+is what the harness checks on fancy-regex's real output (failure kind `ASSUMPTION`). -/
+theorem c30_replace_any_matches (src content : List Char) (ms : List (Nat × Nat))
+    (hok : matchesOk src ms 0 = true) :
+    ∃ r, replace src content ms = some r ∧ Good src r.1 r.2 := by
+  obtain ⟨r, hr⟩ := replaceFrom_isSome src content ms 0 hok
+  exact ⟨r, hr, replace_good src content ms r hr⟩
+
+/-! ### Byte level: the statement on the UTF-8 encodings -/
+
+/-- **C30 on bytes.**  With `nb`/`tb` the UTF-8 encodings of the normalized and the input text
+(`utf8`, `Utf8.encCp` = `char::encode_utf8`): `nb` is well-formed UTF-8
+(`Utf8.valid` = `String::from_utf8`), `offsets.len() = nb.len()` (the code adds no extra entry),
+offsets are non-decreasing, each is `≤ tb.len()`, and for every position `p` that
+`is_char_boundary` accepts in `nb`, `offsets[p]` is accepted by `is_char_boundary` in `tb`
+(`Utf8.isBoundary`: start, end, or not a continuation byte). -/
+theorem c30_offsets_bytes (u : Uni) (n : Norm) (text normalized : List Char) (offsets : List Nat)
+    (h : run u n text = some (normalized, offsets)) :
+    Utf8.valid (utf8 normalized) = true ∧
+    offsets.length = (utf8 normalized).length ∧
+    offsets.Pairwise (· ≤ ·) ∧
+    (∀ o ∈ offsets, o ≤ (utf8 text).length) ∧
+    (∀ p o, offsets[p]? = some o → Utf8.isBoundary (utf8 normalized) p = true →
+      Utf8.isBoundary (utf8 text) o = true) := by
+  have g := run_good u n text _ h
+  refine ⟨utf8_valid _, by rw [utf8_length]; exact g.len, g.mono, ?_, ?_⟩
+  · intro o ho; rw [utf8_length]; exact g.le o ho
+  · intro p o hp hb
+    rw [isBoundary_bytes] at hb ⊢
+    exact g.bnd p o hp hb
+
+/-- Full strength on bytes whenever a char-wise stage is involved: every offset is accepted by
+`is_char_boundary` on the input's bytes. -/
+theorem c30_all_boundaries_bytes (u : Uni) (n : Norm) (text normalized : List Char)
+    (offsets : List Nat) (hc : hasCharwise n = true)
+    (h : run u n text = some (normalized, offsets)) :
+    ∀ o ∈ offsets, Utf8.isBoundary (utf8 text) o = true := by
+  intro o ho
+  rw [isBoundary_bytes]
+  exact run_allB u n text _ hc h o ho
+
 /-! ### Non-vacuity and the negation witness -/
 
 /-- A tiny Unicode table for the examples: `İ` (U+0130) lower-cases to `i` + U+0307 and
@@ -262,5 +343,19 @@ example : run demoUni (.replace ['_'] []) ['ö'] = some (['ö'], [0, 1]) ∧
     run demoUni (.seq [.bert false false, .replace ['_'] [(2, 3)]]) ['ö', 'x'] = some (['ö', '_'], [0, 1, 2]) ∧
     run demoUni (.seq [.unicode .nfc, .replace ['_'] [(2, 3)]]) ['ö', 'x'] = some (['ö', '_'], [0, 0, 2]) ∧
     allBoundaries ['ö'] [0, 1] = false := by decide
+
+/-- Non-vacuity of the new statements: a match list with an empty match at the start, an
+adjacent non-empty match and an empty match at the very end satisfies `matchesOk` ("öx", byte
+ranges); the byte-level boundary predicate agrees with Rust on "ö" = `C3 B6`; the composition
+law instance. -/
+example : matchesOk ['ö', 'x'] [(0, 0), (0, 2), (3, 3)] 0 = true ∧
+    matchesOk ['ö', 'x'] [(1, 2)] 0 = false ∧ matchesOk ['ö', 'x'] [(2, 3), (0, 2)] 0 = false := by
+  decide
+example : replace ['ö', 'x'] [] [(0, 0), (0, 2), (3, 3)] = some (['x'], [2]) := by decide
+example : utf8 ['ö', 'x'] = [0xC3, 0xB6, 0x78] ∧ Utf8.isBoundary (utf8 ['ö', 'x']) 1 = false ∧
+    Utf8.isBoundary (utf8 ['ö', 'x']) 2 = true ∧ Utf8.isBoundary (utf8 ['ö', 'x']) 3 = true := by
+  decide
+example : run demoUni (.seq ([.unicode .nfd] ++ [.bert true false])) ['İ', 'A'] =
+    some (['I', '̇', 'a'], [0, 0, 0, 2]) := by decide
 
 end RtenVerif.Normalizer
